@@ -11,7 +11,7 @@ import random
 from . import probes
 
 
-def gen_case(rng, max_funcs=6, p_bound=0.15, p_default=0.3, p_rename=0.3, p_nullary=0.12, p_tuple=0.25):
+def gen_case(rng, max_funcs=6, p_bound=0.15, p_default=0.3, p_rename=0.3, p_nullary=0.12, p_tuple=0.25, p_decl=0.75, p_ign=0.08):
     roots = [f"r{i}" for i in range(rng.randint(1, 3))]
     names = list(roots)
     defaults = {r: f"D{r}" for r in roots if rng.random() < p_default}
@@ -27,9 +27,9 @@ def gen_case(rng, max_funcs=6, p_bound=0.15, p_default=0.3, p_rename=0.3, p_null
         bound = {p: f"B{i}{p}" for p in params if rng.random() < p_bound}
         fdef = {}
         for p in params:
-            if p in defaults and rng.random() < 0.75:
+            if p in defaults and rng.random() < p_decl:
                 fdef[p] = defaults[p]
-            elif p not in roots and rng.random() < 0.08:
+            elif p not in roots and rng.random() < p_ign:
                 fdef[p] = f"IGN{p}"  # default on a parameter that is an upstream output: never used
         use_rename = rng.random() < p_rename
         iparams = [f"a{k}" for k in range(len(params))] if use_rename else list(params)
